@@ -450,6 +450,10 @@ class Ctx:
                     # answers for its own (the others are reported by their own checks)
                     if st.get("oracle_filter") and not re.search(st["oracle_filter"], m):
                         st.setdefault("foreign_oracle_fails", []).append(m[:300])
+                        # the sibling property's oracle failed on a call on which model and implementation also
+                        # differ: the correspondence this property relies on is broken too
+                        if ";; ALSO-DIFF" in m:
+                            diff_msgs.append((st, "DIFF " + m.split(";; ALSO-DIFF", 1)[1].strip()[:500] + " :: " + m[:200]))
                         continue
                     oracle_msgs.append((st, m))
                 else:
